@@ -1,1 +1,167 @@
-fn main() {}
+//! C15 harness: the C14 driver plus crash points (hook H3, `mithril_aggregator::verif_hooks`).
+//! case = (history prefix, crash point): run the prefix, bring the aggregator to the operation that
+//! passes the point, arm it, tick (the operation stops there with the error), drop the process state,
+//! rebuild on the same database, continue with productive rounds.
+//! K: the same observations as C14 after every event (a cut tick is the model event `crash p`).
+//! S on the real store after the continuation: every certificate verifies with its chain, at most one
+//! signed entity per (type, beacon), each referencing a stored certificate of exactly that entity,
+//! progress (a later round is certified without repair). A second certificate for the interrupted
+//! entity after a stop between certificate insert and open-message update is recorded as a note
+//! (it is C14's clause, whose quantifier has no mid-tick crash), any other double certificate fails.
+use hagg::walk::{Gen, HistoryCfg};
+use hagg::*;
+
+async fn bootstrap(g: &mut Gen, rng: &mut Rng) {
+    g.w.tick().await;
+    let n = g.w.n();
+    for p in 0..n {
+        g.w.register(p, 2).await;
+    }
+    g.w.epoch_up(1).await;
+    for _ in 0..3 {
+        g.w.tick().await;
+    }
+    let _ = rng;
+}
+
+#[tokio::main(flavor = "multi_thread", worker_threads = 4)]
+async fn main() {
+    let args = Args::parse();
+    silence_stdout();
+    install_panic_hook();
+    let mut sink = Sink::new(&args);
+    let (n_hist, positions): (usize, Vec<usize>) = if args.thorough() { (30, vec![8, 20, 35, 55, 80]) } else { (4, vec![8, 25, 45]) };
+    let mut notes: std::collections::BTreeMap<String, u64> = Default::default();
+    for h in 0..n_hist {
+        for (pi, pos) in positions.iter().enumerate() {
+            for p in 0..CRASH_POINTS.len() {
+                if !sink.wanted() {
+                    sink.skip();
+                    continue;
+                }
+                // same prefix for every crash point of a (history, position)
+                let mut rng = Rng::new(args.seed.wrapping_mul(7_000_003).wrapping_add(h as u64));
+                let cfg = HistoryCfg {
+                    n_signers: 3 + (h % 3),
+                    k: [5u64, 40, 70][h % 3],
+                    m: 100,
+                    events: 400,
+                    with_csd: h % 2 == 1,
+                    restarts: true,
+                    jumps: false,
+                    sparse_regs: false,
+                };
+                let name = format!("c15_{}_{}_{}_{}", args.seed, h, pi, p);
+                let mut g = Gen::new(&name, &cfg).await;
+                bootstrap(&mut g, &mut rng).await;
+                while g.w.events.len() < *pos {
+                    g.step(&mut rng).await;
+                }
+                // bring the aggregator to the operation that passes the point
+                let mut fired = false;
+                let mut interrupted: Option<usize> = None;
+                if p < 6 {
+                    for _ in 0..10 {
+                        if g.w.tester.runtime.state_label() == "signing" {
+                            break;
+                        }
+                        g.w.tick().await;
+                    }
+                    for _ in 0..4 {
+                        if g.w.tester.runtime.state_label() != "signing" {
+                            g.w.tick().await;
+                            continue;
+                        }
+                        g.sign_all_current(false).await;
+                        interrupted = g.w.last_dump.oms.iter().rev().find(|o| !o.certified && !o.expired).map(|o| o.ent);
+                        if g.w.crash_tick(p).await {
+                            fired = true;
+                            break;
+                        }
+                    }
+                } else {
+                    for _ in 0..10 {
+                        if g.w.tester.runtime.state_label() == "ready" {
+                            break;
+                        }
+                        g.drive().await;
+                    }
+                    for _ in 0..3 {
+                        g.w.immutable_up().await;
+                        let tp = g.w.time_point().await;
+                        let avail = g.w.avail(&tp);
+                        let target = avail.iter().copied().find(|e| !g.w.last_dump.oms.iter().any(|o| o.ent == *e));
+                        if let Some(ent) = target {
+                            let ep = g.w.entities[ent].get_epoch_when_signed_entity_type_is_signed().0;
+                            let regs = g.w.regs.get(&(ep - 1)).cloned().unwrap_or_default();
+                            for q in regs {
+                                g.sign_and_submit(ent, q, ep - 1, true, ent).await;
+                            }
+                            interrupted = Some(ent);
+                        }
+                        for _ in 0..3 {
+                            if g.w.crash_tick(p).await {
+                                fired = true;
+                                break;
+                            }
+                        }
+                        if fired {
+                            break;
+                        }
+                    }
+                }
+                let certs_at_crash = g.w.last_cert_count;
+                // the process stops and is started again on the same database
+                g.w.restart().await;
+                // continuation: productive rounds, a new beacon, more rounds
+                for _ in 0..3 {
+                    g.w.tick().await;
+                }
+                for round in 0..3 {
+                    for _ in 0..5 {
+                        g.drive().await;
+                    }
+                    if round < 2 {
+                        g.w.immutable_up().await;
+                    }
+                }
+                g.w.check_store("after crash, restart and continuation").await;
+                let tag = format!("{}{}", CRASH_POINTS[p], if fired { "" } else { ":not-fired" });
+                let req = g.w.request("c15.run");
+                let idx = sink.case(&tag, &req, &g.w.observation());
+                let healthy = !matches!(g.w.tester.runtime.state_label(), "blocked-epoch-gap" | "blocked-no-genesis");
+                let mut fails: Vec<(String, String)> = vec![];
+                for (c, what) in &g.w.sfails {
+                    if c == "double-certificate" {
+                        // precise classification of the known observation
+                        let is_interrupted = interrupted.map(|e| what.starts_with(&format!("entity {} ", e))).unwrap_or(false);
+                        if fired && p == 1 && is_interrupted {
+                            *notes.entry("note.double_certificate_after_crash_between_insert_and_flag".into()).or_insert(0) += 1;
+                            continue;
+                        }
+                    }
+                    fails.push((c.clone(), what.clone()));
+                }
+                if healthy && fired && g.w.last_cert_count <= certs_at_crash {
+                    fails.push(("no-progress".into(), format!("no certificate was produced after the crash at {} and restart ({} certificates before and after the continuation)", CRASH_POINTS[p], certs_at_crash)));
+                }
+                if fired {
+                    *notes.entry(format!("fired.{}", CRASH_POINTS[p])).or_insert(0) += 1;
+                }
+                // certified entities without artifact (not a clause of C15; recorded)
+                let d = g.w.last_dump.clone();
+                let without = d.certs.iter().filter(|c| c.ent.is_some() && !d.ses.iter().any(|(e, _)| Some(*e) == c.ent)).count();
+                if without > 0 {
+                    *notes.entry("note.certified_entities_without_artifact".into()).or_insert(0) += without as u64;
+                }
+                for (c, what) in fails {
+                    sink.sfail(idx, &c, &what, &req);
+                }
+            }
+        }
+    }
+    for (k, v) in notes {
+        sink.note(&k, &v.to_string());
+    }
+    sink.finish();
+}
